@@ -23,6 +23,16 @@ type skGroup struct {
 	files  []string
 }
 
+// skOnly: "<module>/<prefix>" -> only these functions of the group's files (the others are boilerplate
+// unrelated to the property)
+var skOnly = map[string][]string{
+	"Blocks/app": {"App.PreBlocker", "App.BeginBlocker", "App.EndBlocker", "App.InitChainer"},
+	"Blocks/ra":  {"AppModule.EndBlock"},
+	"Blocks/sq":  {"AppModule.BeginBlock"},
+	"Blocks/str": {"AppModule.EndBlock"},
+	"Blocks/lk":  {"AppModule.EndBlock", "EndBlocker"},
+}
+
 type skModule struct {
 	name   string // Gen file / namespace: Sk<name>
 	groups []skGroup
@@ -114,6 +124,15 @@ var skModules = []skModule{
 		{"da", []string{"x/delayedack/types/msgs.go", "x/delayedack/types/rollapp_packets_list_filter.go"}},
 		{"cm", []string{"x/common/types/key_rollapp_packet.go"}},
 	}},
+	// --- the block-level entry points (C11): the application's blockers and the four custom modules' ABCI methods
+	{"Blocks", []skGroup{
+		{"app", []string{"app/app.go"}},
+		{"ra", []string{"x/rollapp/module.go"}},
+		{"sq", []string{"x/sequencer/module.go"}},
+		{"str", []string{"x/streamer/module.go"}},
+		{"lk", []string{"x/lockup/module.go", "x/lockup/abci.go"}},
+		{"exp", []string{"app/export.go"}},
+	}},
 	{"Lockup", []skGroup{
 		{"k", []string{
 			"x/lockup/keeper/lock.go", "x/lockup/keeper/msg_server.go", "x/lockup/keeper/lock_refs.go",
@@ -122,6 +141,15 @@ var skModules = []skModule{
 		{"t", []string{"x/lockup/types/lock.go"}},
 		{"m", []string{"x/lockup/abci.go"}},
 	}},
+}
+
+func contains(xs []string, x string) bool {
+	for _, y := range xs {
+		if y == x {
+			return true
+		}
+	}
+	return false
 }
 
 func leanIdent(prefix, goName string) string {
@@ -147,9 +175,16 @@ func genSkModule(m skModule) func(repo string) (string, []string, error) {
 				continue
 			}
 			var names []string
+			only := skOnly[m.name+"/"+g.prefix]
 			for n, fd := range p.funcs {
-				if fd.Body != nil {
+				if fd.Body != nil && (len(only) == 0 || contains(only, n)) {
 					names = append(names, n)
+				}
+			}
+			for _, n := range only { // a listed function that vanished is a fact, too
+				if fd, ok := p.funcs[n]; !ok || fd.Body == nil {
+					notes = append(notes, fmt.Sprintf("group %s: function %s not found", g.prefix, n))
+					fmt.Fprintf(&b, "opaque %s : List String\n\n", leanIdent(g.prefix, n))
 				}
 			}
 			sort.Strings(names)
